@@ -229,8 +229,85 @@ def gen_text(st: Streams, tier: str, seed: int):
     return kind, doc, cfg
 
 
+def generate_pipeline(seed: int, tier: str) -> dict:
+    """A short editing session carried out through the CLI: each command reads the file and its stdout
+    is redirected over the file (the process boundary is the restart)."""
+    from .model import DocModel
+
+    st = Streams(seed)
+    cfg = gen.swarm(st("swarm"), tier, profile="scope" if st("swarm").random() < 0.5 else "edit")
+    cfg["fail_rate"] = 0.1
+    doc = gen.DocGen(st("doc"), cfg, docnum=seed % 1000).document()
+    while doc.count("\n") > 60:
+        cfg["max_members"] = max(1, cfg["max_members"] - 1)
+        cfg["max_depth"] = max(0, cfg["max_depth"] - 1)
+        doc = gen.DocGen(st("doc"), cfg, docnum=seed % 1000).document()
+    dm = DocModel(reader.decode(doc))
+    og = gen.OpGen(st("ops"), cfg, seed)
+    cmds = []
+    for _ in range(st("ops").randint(2, 4)):
+        if not dm.editable:
+            break
+        op = og.pick(dm, scoped_bias=0.5)
+        cmds.append(["set", op["path"], op["value"]] if op["op"] == "set" else ["rm", op["path"]])
+        if dm.apply(op)[0] == "unspecified":
+            break
+    return {"prop": "C16", "engine": "cli", "seed": seed, "tier": tier, "text_kind": "pipeline", "input": doc, "cmds": cmds,
+            "cmd": ["pipeline"], "chunks": [], "fault": None, "flag_first": st("ops").random() < 0.5}
+
+
+def execute_pipeline(case: dict, root: str):
+    viols: list[Violation] = []
+    stats: dict = {"invocations": 0, "kind:pipeline": 1, "pipeline_steps": 0}
+    path = os.path.join(root, "session.nix")
+    text = case["input"]
+    with open(path, "w", encoding="utf-8", newline="") as fh:
+        fh.write(text)
+    for k, cmd in enumerate(case["cmds"]):
+        if _arg_problem(cmd):
+            break
+        lib = library_edit(text, cmd)
+        r = run_inprocess(_argv(cmd, path, case["flag_first"]), stdin_bytes=b"")
+        stats["invocations"] += 1
+        stats["pipeline_steps"] += 1
+        facts = {"cmd": cmd[0], "text_kind": "pipeline", "step": k, "scoped": cmd[1].startswith("@"), "lib": lib[0] if lib[0] == "ok" else lib[1],
+                 "fault": None, "channel": "file"}
+        if lib[0] != "ok":
+            if r.status == 0 or r.stdout:
+                viols.append(Violation("C16.error_exit0" if r.status == 0 else "C16.error_stdout", "step %d `%s`: library refuses (%s) but status %d stdout %r" % (k, " ".join(cmd), lib[1], r.status, r.stdout[:80]), None, facts))
+                break
+            continue  # the shell would not redirect a failed command over the file
+        want = lib[1] + ("" if lib[1].endswith("\n") else "\n")
+        facts["lib_ends_nl"] = lib[1].endswith("\n")
+        if r.status != 0:
+            viols.append(Violation("C16.status", "step %d `%s`: exit status %d, expected 0 (%s)" % (k, " ".join(cmd), r.status, r.stderr[-120:]), None, facts))
+            break
+        if r.stdout != want.encode("utf-8"):
+            facts["newline_only"] = r.stdout.rstrip(b"\n") == want.encode("utf-8").rstrip(b"\n")
+            viols.append(Violation("C16.stdout", "step %d `%s`: stdout differs from the library text: got …%r want …%r" % (k, " ".join(cmd), r.stdout[-60:], want[-60:]), None, facts))
+            break
+        with open(path, "wb") as fh:
+            fh.write(r.stdout)
+        text = r.stdout.decode("utf-8")
+        t = run_inprocess(["test", "-f", path], stdin_bytes=b"")
+        stats["invocations"] += 1
+        ok = library_verdict(text)
+        want_t = (b"OK\n", 0) if ok else (b"Fail\n", 1)
+        if (t.stdout, t.status) != want_t:
+            viols.append(Violation("C16.test_verdict", "step %d: `nima test` says %r/%d, library verdict is %s" % (k, t.stdout, t.status, ok), None, facts))
+            break
+        if case["input"].endswith("\n") and not case["input"].endswith("\n\n") and library_verdict(case["input"]) and library_verdict(lib[1]) and not text.endswith("\n"):
+            viols.append(Violation("C16.final_newline_lost", "step %d: the file ended in one newline and no longer does" % k, None, facts))
+            break
+    from .core import digest as _dg
+
+    return viols, stats, [_dg([case["input"], case["cmds"]])]
+
+
 def generate(seed: int, tier: str) -> dict:
     st = Streams(seed)
+    if st("kind").random() < 0.3:
+        return generate_pipeline(seed, tier)
     kind, text, cfg = gen_text(st, tier, seed)
     rng = st("cli")
     from .model import DocModel
@@ -295,6 +372,8 @@ def execute(case: dict, *, root: str | None = None, subprocess_check: bool = Fal
     if own_root:
         root = scratch_root()
     try:
+        if case.get("text_kind") == "pipeline":
+            return execute_pipeline(case, root)
         data = text.encode("utf-8")
         fkind = fault["kind"] if fault else None
         if fkind == "undecodable":
